@@ -9,7 +9,7 @@ op    := `g <kind> <plen> <p>*` | `r <kind> <id>` | `o` (release own) | `w` (ren
          kinds 1..3: p = the id as a number (base-|Charset| reading of the 8 random characters);
          kind 9 (node slot): candidate = NodeIDMin + a.
 obs   := event* `|` viewkey*
-event := `ok.<tid>.<kind>.<id>` | `exh.<tid>.<kind>` | `rel.<tid>.<kind>.<id>` | `rnw.<tid>.<kind>.<id>` | `nop.<tid>` | `err.<tid>` | `tick.<dt>`
+event := `ok.<tid>.<kind>.<id>` | `exh.<tid>.<kind>` | `rel.<tid>.<kind>.<id>` | `relo.<tid>.<kind>.<id>` (release-own) | `rnw.<tid>.<kind>.<id>` | `nop.<tid>` | `err.<tid>` | `tick.<dt>`
 ids are printed as the real code prints them (`10000002`, `pmap_AAAAAAAB`, `node-0001`).
 -/
 namespace Tunnox.Drv.C15
@@ -66,6 +66,7 @@ def renderEv : Ev → String
   | .ok t k i => s!"ok.{t}.{k}.{renderId k i}"
   | .exh t k => s!"exh.{t}.{k}"
   | .rel t k i => s!"rel.{t}.{k}.{renderId k i}"
+  | .relo t k i => s!"relo.{t}.{k}.{renderId k i}"
   | .rnw t k i => s!"rnw.{t}.{k}.{renderId k i}"
   | .nop t => s!"nop.{t}"
   | .err t => s!"err.{t}"
@@ -83,6 +84,7 @@ def parseEv (tok : String) : Option Ev :=
   | ["ok", t, k, i] => do let t ← t.toNat?; let k ← k.toNat?; let i ← parseId k i; pure (.ok t k i)
   | ["exh", t, k] => do let t ← t.toNat?; let k ← k.toNat?; pure (.exh t k)
   | ["rel", t, k, i] => do let t ← t.toNat?; let k ← k.toNat?; let i ← parseId k i; pure (.rel t k i)
+  | ["relo", t, k, i] => do let t ← t.toNat?; let k ← k.toNat?; let i ← parseId k i; pure (.relo t k i)
   | ["rnw", t, k, i] => do let t ← t.toNat?; let k ← k.toNat?; let i ← parseId k i; pure (.rnw t k i)
   | ["nop", t] => do let t ← t.toNat?; pure (.nop t)
   | ["err", t] => do let t ← t.toNat?; pure (.err t)
